@@ -379,6 +379,12 @@ func (h H) installSnapshotHandler(rule string) {
 					}
 				}
 				h.C.Check(rule+" keep-suffix-only-if-matching", key, okContains && okTerm, cmp.Pos, fmt.Sprintf("the log suffix is kept although it may not match the snapshot: contains snapshot index=%v, same term=%v", okContains, okTerm))
+				// and the suffix that is kept stays authoritative: configuration
+				// entries in it are newer than the snapshot's membership, which
+				// must not overwrite them; nor is the commit index reset
+				iCC := evIndex(t, isCall("(*Raft).changeConfig"))
+				iCm := evIndex(t, isCall("(*Raft).commitConfig"))
+				h.C.Check(rule+" keep-path-keeps-configuration", key, iCC < 0 && iCm < 0, cmp.Pos, "the follower keeps its log suffix and still replaces its configuration by the snapshot's (older) membership: a configuration entry in the kept suffix no longer overrides it")
 			} else {
 				h.C.Check(rule+" success-installs", key, false, t.ExitPos, "success is returned without either keeping a matching suffix or discarding the log")
 			}
